@@ -361,7 +361,7 @@ func (s *Server) publishDiagnosticsVersion(ctx context.Context, docURI protocol.
 	resolved, loadErrors := s.loader.LoadFromContent(path, content)
 	s.storeResolvedIfCurrent(docURI, version, resolved)
 
-	diagnostics := s.analyze(content)
+	diagnostics := s.analyzeResolved(content, resolved)
 
 	for _, err := range loadErrors {
 		severity := protocol.DiagnosticSeverityError
@@ -389,6 +389,12 @@ func (s *Server) publishDiagnosticsVersion(ctx context.Context, docURI protocol.
 }
 
 func (s *Server) analyze(content string) []protocol.Diagnostic {
+	return s.analyzeResolved(content, nil)
+}
+
+// analyzeResolved is analyze with the document's resolved include tree: accounts and
+// commodities declared in included files count as declared, with or without a workspace.
+func (s *Server) analyzeResolved(content string, resolved *include.ResolvedJournal) []protocol.Diagnostic {
 	journal, parseErrs := parser.Parse(content)
 
 	diagnostics := make([]protocol.Diagnostic, 0, len(parseErrs))
@@ -414,6 +420,10 @@ func (s *Server) analyze(content string) []protocol.Diagnostic {
 	if s.workspace != nil {
 		external.Accounts = s.workspace.GetDeclaredAccounts()
 		external.Commodities = s.workspace.GetDeclaredCommodities()
+	}
+	if resolved != nil {
+		// the workspace maps are shared caches: merge into fresh maps, never mutate them
+		external = analyzer.MergeDeclarations(analyzer.DeclarationsFromResolved(resolved), external)
 	}
 
 	var result *analyzer.AnalysisResult
